@@ -560,9 +560,14 @@ static int64_t geometric()
 	return k;
 }
 
+static void (*g_progressHook)() = nullptr;
+void setProgressHook(void (*h)()) { g_progressHook = h; }
+
 static void forcedStep()
 {
 	g.steps++;
+	if ((g.steps & 1023) == 0 && g_progressHook)
+		g_progressHook();
 	if (g.steps > g.cfg.maxSteps)
 	{
 		char b[400];
